@@ -15,6 +15,7 @@ import (
 
 	hdf5 "github.com/scigolib/hdf5"
 	"github.com/scigolib/hdf5/internal/core"
+	"github.com/scigolib/hdf5/internal/structures"
 )
 
 // c06: everything the public read API returns for ONE reference file, as one JSON document.
@@ -45,8 +46,20 @@ type c06Named struct {
 	Nil   bool   `json:"nil,omitempty"`
 }
 
+// c06Link is one link of a group as the group's own link messages / symbol table state it (parsed with the
+// reader's parsers); every hard link must be a member of what Children() returns.
+type c06Link struct {
+	Name    string `json:"name"` // hex
+	Kind    string `json:"kind"` // hard | soft | other
+	Addr    uint64 `json:"addr"`
+	LoadErr string `json:"loaderr,omitempty"` // what the reader's child loader says about a hard link target
+}
+
 type c06Extra struct {
 	Path      string       `json:"path"`
+	Links     []c06Link    `json:"links,omitempty"`
+	LinksErr  string       `json:"linkserr,omitempty"`
+	LinksSrc  string       `json:"linkssrc,omitempty"`
 	NRead     int          `json:"nread"`
 	NRaw      int          `json:"nraw"` // raw length in bytes before truncation
 	Props     string       `json:"props"`
@@ -167,6 +180,7 @@ func c06Run(path string, limit int) (out c06Out) {
 					if attrs, err := o.Attributes(); err == nil {
 						ex.AttrTypes = c06AttrTypes(attrs)
 					}
+					c06GroupLinks(f, o, &ex)
 					out.Extra[p] = ex
 				case *hdf5.Dataset:
 					ex := c06Extra{Path: p, DsType: -1}
@@ -260,6 +274,84 @@ func c06FillData(f *hdf5.File, o *hdf5.Dataset, od *objDump, ex *c06Extra, limit
 			od.Read = make([]string, len(vals))
 			for i, v := range vals {
 				od.Read[i] = fmt.Sprintf("%016x", math.Float64bits(v))
+			}
+		}
+	}
+}
+
+// c06GroupLinks lists the links a group's object header announces (link messages, or the symbol table it points to).
+func c06GroupLinks(f *hdf5.File, g *hdf5.Group, ex *c06Extra) {
+	defer func() {
+		if r := recover(); r != nil {
+			ex.LinksErr = "panic: " + fmt.Sprint(r)
+		}
+	}()
+	addr := g.VerifAddress()
+	if addr == 0 {
+		return
+	}
+	sb := f.Superblock()
+	hdr, err := core.ReadObjectHeader(f.Reader(), addr, sb)
+	if err != nil {
+		ex.LinksErr = err.Error()
+		return
+	}
+	add := func(name, kind string, a uint64) {
+		l := c06Link{Name: hex.EncodeToString([]byte(name)), Kind: kind, Addr: a}
+		if kind == "hard" {
+			if _, e := hdf5.VerifLoadObject(f, a, name); e != nil {
+				l.LoadErr = e.Error()
+			}
+		}
+		ex.Links = append(ex.Links, l)
+	}
+	var btree, heap uint64
+	for _, m := range hdr.Messages {
+		switch m.Type {
+		case core.MsgLinkMessage:
+			ex.LinksSrc = "link messages"
+			lm, err := structures.ParseLinkMessage(m.Data, sb)
+			if err != nil {
+				ex.LinksErr = err.Error()
+				return
+			}
+			switch {
+			case lm.IsHardLink():
+				add(lm.Name, "hard", lm.ObjectAddress)
+			case lm.IsSoftLink():
+				add(lm.Name, "soft", 0)
+			default:
+				add(lm.Name, "other", 0)
+			}
+		case core.MsgSymbolTable:
+			if len(m.Data) >= 16 {
+				btree = sb.Endianness.Uint64(m.Data[0:8])
+				heap = sb.Endianness.Uint64(m.Data[8:16])
+			}
+		}
+	}
+	if ex.LinksSrc == "" && btree != 0 {
+		ex.LinksSrc = "symbol table"
+		h, err := structures.LoadLocalHeap(f.Reader(), heap, sb)
+		if err != nil {
+			ex.LinksErr = err.Error()
+			return
+		}
+		entries, err := structures.ReadGroupBTreeEntries(f.Reader(), btree, sb)
+		if err != nil {
+			ex.LinksErr = err.Error()
+			return
+		}
+		for _, e := range entries {
+			name, err := h.GetString(e.LinkNameOffset)
+			if err != nil {
+				ex.LinksErr = err.Error()
+				return
+			}
+			if e.IsSoftLink() {
+				add(name, "soft", 0)
+			} else {
+				ex.Links = append(ex.Links, c06Link{Name: hex.EncodeToString([]byte(name)), Kind: "hard", Addr: e.ObjectAddress})
 			}
 		}
 	}
